@@ -97,6 +97,11 @@ func (its *MongoCollections) GetOperations(
 		opList = append(opList, opDoc.GetOperation())
 		sseqList = append(sseqList, opDoc.Sseq)
 	}
+	// Next() also returns false when fetching the next batch failed: without this check a log of
+	// more than one batch was silently cut short and the caller took the cut for the end of the log
+	if err := cursor.Err(); err != nil {
+		return nil, nil, errors.ServerDBQuery.New(ctx.L(), err.Error())
+	}
 	return opList, sseqList, nil
 }
 
